@@ -20,7 +20,7 @@ PROP = {
         'cms_sound (Section hypothesis, explicit in every theorem that needs it): CMS validation under key k succeeds iff the message was signed by k and the bytes decode to exactly what was signed. Unforgeability of RSA signatures and correctness of the DER/CMS/XML decoders (rpki crate, bcder, OpenSSL) are NOT proved',
         'the single-bit corruption sweep (quick: positions sampled per region signature / signed attributes / eContent / certificate and framing of 3 valid messages; thorough: every bit) is TESTING of decoder and signature check - exploration evidence, not proof; a flipped message may be acted upon only if it still decodes to the identical sender, recipient and payload',
         'the proof covers the decision logic after signature validation: which key a message is validated against, what a refused / accepted message may change, which key signs the reply, and the local shortcut, where the caller\'s ID key is compared with the registered one instead of a signature (repaired tree, /repo 1a6ebc01 and 346cb17c)',
-        'outside the model: the embedded trust anchor as parent (rfc6492 refuses "ta"), resource-class name mappings of imported children (C03/F03a), certificate validity and the one-day expiry test of the implicit unsuspend, CSR contents, URI spelling rules of the publication server (C10), RRDP; a request limit is one atom mask (the harness limits all three address families at once)',
+        'outside the model: the embedded trust anchor as REMOTE parent (rfc6492 refuses "ta"; as LOCAL parent the TA proxy is modelled: child table, queued requests, waiting responses - what proxy and signer do with them is C15), resource-class name mappings of imported children (C03/F03a), certificate validity and the one-day expiry test of the implicit unsuspend, CSR contents, URI spelling rules of the publication server (C10), RRDP; a request limit is one atom mask (the harness limits all three address families at once)',
         'the local shortcuts are observed through ca_sync_parent / update_repo / cas_repo_sync_single: the requests served at the parent (the queries served at the repository) are derived from the difference of the state before and after the call',
     ],
     'trusted_extra': [
